@@ -375,6 +375,16 @@ func (conn *obfs4Conn) clientHandshake(nodeID *ntor.NodeID, peerIdentityKey *nto
 		conn.encoder = framing.NewEncoder(okm[:framing.KeyLength])
 		conn.decoder = framing.NewDecoder(okm[framing.KeyLength:])
 
+		// The server can and will send frames trailing the response (at least
+		// the inline PRNG seed, possibly application data).  Decode whatever
+		// was received along with the handshake now, as Read() only examines
+		// the receive buffer after more data arrives from the network.
+		if conn.receiveBuffer.Len() > 0 {
+			if err = conn.processReceiveBuffer(); err != nil && !errors.Is(err, framing.ErrAgain) {
+				return err
+			}
+		}
+
 		return nil
 	}
 }
